@@ -705,6 +705,9 @@ class CallMixin:
 
     def modular_call(self, f, e, st, vals=None):
         c = f.contract
+        if c is not None and "noframe" in c.flags:
+            # its writes are not checked against a `modifies` list, so a caller could not know what to havoc
+            raise Unsupported("modular call of %s, whose contract is `noframe`" % f.key)
         node = f.node
         if vals is None:
             vals = self.call_values(f, e, st)
@@ -836,6 +839,17 @@ class CallMixin:
             nm = [k for k, v in names.items() if v == m["index"]][0]
             obj = self.param_obj(f, nm)
             sl = post.vars[obj]
+            if isinstance(sl, PtrV) and sl.elem.under().k != "struct":
+                # pointer parameter: the pointee may change
+                lv = HeapLV(sl.oid, sl.elem, None, sl.elem)
+                self.frame_obj_write(st, sl.oid, sl.elem, None)
+                saved = self.frame_spec
+                self.frame_spec = None
+                v = self.fresh_value(sl.elem, "%s@call" % nm)
+                self.type_facts(st, v, sl.elem, param=False)
+                lv.set(self, post, v)
+                self.frame_spec = saved
+                return
             if not isinstance(sl, SliceV):
                 raise Unsupported("modifies of non-slice parameter")
             if sl.lv is not None:
